@@ -128,8 +128,12 @@ def finish(res, d, prop, confirmed):
     name = os.path.basename(d.rstrip("/"))
     agent = os.path.basename(os.path.dirname(os.path.dirname(d.rstrip("/"))))
     out = os.path.join(ROOT, "seeded", "%s_%s" % (name, agent))
+    if os.path.dirname(os.path.abspath(d.rstrip("/"))) == os.path.join(ROOT, "seeded"):
+        out = os.path.abspath(d.rstrip("/"))  # re-evaluation of a kept seed in place
     os.makedirs(out, exist_ok=True)
     for f in os.listdir(d):
+        if os.path.abspath(d.rstrip("/")) == out:
+            break
         if os.path.isfile(os.path.join(d, f)) and os.path.getsize(os.path.join(d, f)) < 400000:
             shutil.copy(os.path.join(d, f), os.path.join(out, f))
     json.dump(res, open(os.path.join(out, "meta.json"), "w"), indent=1)
